@@ -8,6 +8,7 @@ package main
 // case: (stress tk G N (seq ...sorted)) tk: 0 epoch time, 1 a current time
 
 import (
+	"fmt"
 	"sort"
 	"sync"
 	"time"
@@ -77,4 +78,40 @@ func genC14stress(o *Out, r *Rng, thorough bool) {
 	}
 }
 
-func init() { register("C14stress", genC14stress) }
+// many distinct (source, creation time) states between two bundles of one zero-time source: the
+// counter of that source must survive (case: (burst k s0 s1): sequence numbers of the two)
+func genC14burst(o *Out, r *Rng, thorough bool) {
+	sizes := []int{100, 1000, 1023, 1024, 1025, 1100, 5000}
+	if thorough {
+		sizes = append(sizes, 20000)
+	}
+	for _, k := range sizes {
+		n := NewNode("dtn://n0/", routing.RoutingConf{Algorithm: "epidemic"})
+		zero := func() uint64 {
+			b, err := bpv7.Builder().Source("dtn://n0/app").Destination("dtn://dst/x").Lifetime("1h").PayloadBlock([]byte("z")).
+				CreationTimestampEpoch().BundleAgeBlock(uint64(1)).Build()
+			if err != nil {
+				panic(err)
+			}
+			return n.Core.VerifIdKeeperUpdate(&b)
+		}
+		s0 := zero()
+		base := bpv7.DtnTimeFromTime(time.Now())
+		for i := 0; i < k; i++ {
+			// distinct sources and milliseconds, none older than the cleaning window
+			b, err := bpv7.Builder().Source(fmt.Sprintf("dtn://n0/s%d", i%7)).Destination("dtn://dst/x").Lifetime("1h").PayloadBlock([]byte("f")).
+				CreationTimestampTime((base - bpv7.DtnTime(i/7)).Time()).Build()
+			if err != nil {
+				panic(err)
+			}
+			n.Core.VerifIdKeeperUpdate(&b)
+		}
+		s1 := zero()
+		o.Case("burst", I(k), U(s0), U(s1))
+		n.Destroy()
+	}
+}
+
+func init() {
+	register("C14stress", func(o *Out, r *Rng, thorough bool) { genC14stress(o, r, thorough); genC14burst(o, r, thorough) })
+}
